@@ -99,7 +99,8 @@ def run(tier):
     res.assumptions = ["caller-supplied validators and Serialize impls may panic on their own: not the library's obligation", "tokens are shorter than 2^32 cipher blocks"]
     facts = F.load("all")
     rts, entries = roots(facts)
-    I = A.Interp(facts, MD.MODELS, max_paths=20000, sym_loop_unroll=2)
+    # thorough: one more symbolic iteration of every opaque loop (three expected claims / validators / segments) and a larger path budget
+    I = A.Interp(facts, MD.MODELS, max_paths=20000 if tier != "thorough" else 400000, sym_loop_unroll=2 if tier != "thorough" else 3)
     npaths = 0
     unmod = {}
     aborted = []
